@@ -244,6 +244,9 @@ def check_equiv(rep, rule, construct, what, code, spec, where="", eq=None, assum
     if eq.run is None and run is not None:
         fn = run.P.functions.get(construct)
         eq.bind(run, cls=fn.cls if fn else None)
+    if run is not None and construct in run.P.functions and any(x[0] in ("after", "iter", "phi", "loopret") for x in walk(code)):
+        cs = run.A.summary(construct)
+        code = subst(close_loops(cs, code), canon_params(cs)) if any(x[0] == "param" and x[1].startswith("#") for x in walk(code)) else close_loops(cs, code)
     eq.vocab_key = f"{rule}|{construct}|{key or what}"
     mism, rows = eq.compare(code, spec, assume=assume, alias=cond_alias, int_subjects=int_subjects)
     if os.environ.get("PRSA_RECORD_VOCAB"):
@@ -558,6 +561,8 @@ def small_rewrites(t):
         return e if t[1] == "==" else ("un", "not", e)
     if h == "cmp" and t[1] in ("==", "is") and is_const(strip(t[3]), True) and head(strip(t[2])) in ("cmp", "and", "or", "un"):
         return t[2]
+    if h == "cmp" and t[1] in ("==", "is") and is_const(strip(t[3]), False) and head(strip(t[2])) in ("cmp", "and", "or", "un"):
+        return ("un", "not", t[2])
     if h == "cmp" and t[1] in ("is", "isnot", "==", "!=") and is_const(strip(t[3]), None):
         x = strip(t[2])
         # freshly constructed objects are never None
